@@ -24,6 +24,7 @@ from photon_weave._math.ops import (
 )
 from photon_weave.constants import C0, gaussian
 from photon_weave.photon_weave import Config
+from photon_weave.state.composite_envelope import CompositeEnvelope
 from photon_weave.state.expansion_levels import ExpansionLevel
 from photon_weave.state.fock import Fock
 from photon_weave.state.polarization import Polarization
